@@ -39,6 +39,7 @@ type Program struct {
 	Cfg          Config
 	NKeys        int
 	Splits       [][]int // per split: key index of each record
+	Fan          [][]int // per split and record (may be shorter): v > 0 = KeyEvent yields a second keyed event for key (v-1) mod NKeys, v > 20 = and a third for key v mod NKeys
 	Faults       []Fault
 	Standby      int   // extra workers started up front
 	LatencyUs    []int // KeyEventBatch latency per call (cyclic); exercises out-of-order completions
@@ -69,9 +70,22 @@ func buildData(p Program) (map[string][]Rec, map[string]int) {
 		ord := map[int]int{}
 		for i, k := range ks {
 			key := keyName(k % max(1, p.NKeys))
-			data[split] = append(data[split], Rec{Split: split, Idx: i, Key: key, Ord: ord[k%max(1, p.NKeys)]})
+			r := Rec{Split: split, Idx: i, Key: key, Ord: ord[k%max(1, p.NKeys)]}
 			ord[k%max(1, p.NKeys)]++
 			totals[key+"/"+split]++
+			if si < len(p.Fan) && i < len(p.Fan[si]) && p.Fan[si][i] > 0 {
+				v := p.Fan[si][i]
+				extra := []int{(v - 1) % max(1, p.NKeys)}
+				if v > 20 {
+					extra = append(extra, v%max(1, p.NKeys))
+				}
+				for _, fk := range extra {
+					r.Fan = append(r.Fan, Fan{Key: keyName(fk), Ord: ord[fk]})
+					ord[fk]++
+					totals[keyName(fk)+"/"+split]++
+				}
+			}
+			data[split] = append(data[split], r)
 		}
 		if len(ks) == 0 {
 			data[split] = nil
@@ -425,6 +439,7 @@ func CheckDelivery(w *World, data map[string][]Rec, groups int) (barriersWithBot
 	type rk struct {
 		split string
 		idx   int
+		sub   int
 	}
 	seen := map[rk]string{}
 	n := len(w.Assembly)
@@ -445,9 +460,9 @@ func CheckDelivery(w *World, data map[string][]Rec, groups int) (barriersWithBot
 		for i, d := range stream {
 			switch d.Kind {
 			case "rec":
-				k := rk{d.Rec.Split, d.Rec.Idx}
+				k := rk{d.Rec.Split, d.Rec.Idx, d.Rec.Sub}
 				if prev, dup := seen[k]; dup {
-					return 0, hx.Errf("record %d of split %s was delivered twice (to %s and to %s)", d.Rec.Idx, d.Rec.Split, prev, opID)
+					return 0, hx.Errf("keyed event %d of record %d of split %s was delivered twice (to %s and to %s)", d.Rec.Sub, d.Rec.Idx, d.Rec.Split, prev, opID)
 				}
 				seen[k] = opID
 				g := refimpl.KeyGroup([]byte(d.Rec.Key), groups)
@@ -462,10 +477,10 @@ func CheckDelivery(w *World, data map[string][]Rec, groups int) (barriersWithBot
 					return 0, hx.Errf("record %d of split %s (key %q, group %d) was delivered to %s (range %d), the group belongs to range %d", d.Rec.Idx, d.Rec.Split, d.Rec.Key, g, opID, opIdx, want)
 				}
 				sk := d.Rec.Split + "/" + d.Rec.Key
-				if p, ok := last[sk]; ok && d.Rec.Idx < p {
-					return 0, hx.Errf("records of split %s with key %q reached %s out of order: %d after %d", d.Rec.Split, d.Rec.Key, opID, d.Rec.Idx, p)
+				if p, ok := last[sk]; ok && d.Rec.at() < p {
+					return 0, hx.Errf("records of split %s with key %q reached %s out of order: %d.%d after %d.%d", d.Rec.Split, d.Rec.Key, opID, d.Rec.Idx, d.Rec.Sub, p/8, p%8)
 				}
-				last[sk] = d.Rec.Idx
+				last[sk] = d.Rec.at()
 				maxTS[d.From] = max(maxTS[d.From], int64(d.Rec.Idx+1)*int64(time.Second))
 				recsBefore[d.From]++
 			case "wm":
@@ -557,15 +572,17 @@ func CheckDelivery(w *World, data map[string][]Rec, groups int) (barriersWithBot
 	}
 	total := 0
 	for split, recs := range data {
-		total += len(recs)
 		for _, r := range recs {
-			if _, ok := seen[rk{split, r.Idx}]; !ok {
-				return 0, hx.Errf("record %d of split %s was never delivered to any operator", r.Idx, split)
+			for sub := 0; sub <= len(r.Fan); sub++ {
+				total++
+				if _, ok := seen[rk{split, r.Idx, sub}]; !ok {
+					return 0, hx.Errf("keyed event %d of record %d of split %s was never delivered to any operator", sub, r.Idx, split)
+				}
 			}
 		}
 	}
 	if len(seen) != total {
-		return 0, hx.Errf("%d distinct records were delivered, the input has %d", len(seen), total)
+		return 0, hx.Errf("%d distinct keyed events were delivered, the input yields %d", len(seen), total)
 	}
 	return barriersWithBothSides, nil
 }
@@ -685,10 +702,10 @@ func sameIncarnation(stream []Delivered, from, to int, runner string) bool {
 		if d.From != runner || d.Kind != "rec" {
 			continue
 		}
-		if prev, ok := last[d.Rec.Split]; ok && d.Rec.Idx <= prev {
+		if prev, ok := last[d.Rec.Split]; ok && d.Rec.at() <= prev {
 			return false
 		}
-		last[d.Rec.Split] = d.Rec.Idx
+		last[d.Rec.Split] = d.Rec.at()
 	}
 	return true
 }
@@ -718,6 +735,12 @@ func GenProgram(rt *rapid.T, faults []string, maxFaults int) Program {
 		n := rapid.IntRange(5, 80).Draw(rt, "len")
 		total += n
 		p.Splits = append(p.Splits, rapid.SliceOfN(rapid.IntRange(0, 11), n, n).Draw(rt, "keys"))
+	}
+	if rapid.IntRange(0, 2).Draw(rt, "fanout") == 0 {
+		// KeyEvent may key one record into several events with keys of their own
+		for i := 0; i < ns; i++ {
+			p.Fan = append(p.Fan, rapid.SliceOfN(rapid.SampledFrom([]int{0, 0, 0, 1, 2, 3, 5, 8, 12, 25, 30}), 0, len(p.Splits[i])).Draw(rt, "fan"))
+		}
 	}
 	nf := rapid.IntRange(0, maxFaults).Draw(rt, "nfaults")
 	// the number of inter-node calls of a run is roughly the number of records
